@@ -44,7 +44,7 @@ MANIFEST = {
 
 FRESH = "http://ex.org/fresh#"       # namespace of the unencodable IRIs: its prefix entry is new when the fault strikes
 
-CAUSES = ["unsupported-term", "typed-literal-datatypes-disabled", "tuple-too-short", "unencodable-string",
+CAUSES = ["unsupported-term", "typed-literal-datatypes-disabled", "tuple-too-short", "tuple-too-long", "unencodable-string",
           "bad-namespace-declaration"]
 
 
@@ -68,6 +68,8 @@ def to_native(integ: str, st: tuple, fault):
     idx, nested, cause = fault
     if cause == "tuple-too-short":
         return tuple(terms[:-1])             # plain tuple with one term missing
+    if cause == "tuple-too-long":
+        return tuple(terms) + (terms[0],)    # plain tuple with one term too many (e.g. a quad handed to a triples stream)
     if cause == "unsupported-term":
         bad = Bad()
     elif cause == "typed-literal-datatypes-disabled":
@@ -152,6 +154,8 @@ def drive(integ: str, cfg: dict, stmts: list, fault_at: int, fault, ns_after=Non
                 else:
                     g = (T.to_generic if integ == "generic" else T.to_rdflib)(st[3])
                 tr = native[:3] if (flt is None or flt[2] != "tuple-too-short") else native[:2]
+                if flt is not None and flt[2] == "tuple-too-long":
+                    tr = tuple(native[:3]) + (native[4],)
                 for fr in stream.graph(g, iter([tr])):
                     got(fr)
             accepted.append(st)
@@ -265,6 +269,7 @@ def fault_sites(integ: str, phys: int, st: tuple, datatypes_disabled: bool):
         if idx == 3:
             yield (idx, None, "unencodable-string")
     yield (arity - 1, None, "tuple-too-short")
+    yield (arity - 1, None, "tuple-too-long")
 
 
 def make_case(rng):
@@ -337,7 +342,7 @@ def run_case(ctx, rng):
             ctx.observe(f"cause:{fault[2]}")
             ctx.observe(f"continued-via:{via}")
             ctx.observe(f"slot:{'spog'[fault[0]]}{'/quoted' if fault[1] == 'quoted' else ''}")
-            partial = fault[0] > 0 or fault[1] == "quoted" or fault[2] == "tuple-too-short" or \
+            partial = fault[0] > 0 or fault[1] == "quoted" or fault[2] in ("tuple-too-short", "tuple-too-long") or \
                 (fault[2] in ("unencodable-string", "bad-namespace-declaration"))
             if partial:
                 ctx.observe("rejections-after-partial-encoding")
